@@ -149,7 +149,9 @@ pub const NUM_POOL: [(&str, f64); 22] = [
     ("5", 5.0),
 ];
 
-pub const STR_POOL: [&str; 24] = [
+pub const STR_POOL: [&str; 27] = [
+    // leading line breaks (a long bracket string drops exactly one)
+    "\nUsage: tool <command>\n", "\n\nx", "\r\nq",
     "", "a", "abc", "hello world", "10", " 0x10 ", "1e2", "end", "nil", "it's", "say \"hi\"", "back\\slash", "tab\there", "line\nbreak", "]]", "x]=]y", "%d%s", "é",
     // long enough for the generators' long-bracket form (>= 60 bytes, or >= 20 bytes with >= 6 line feeds)
     "GET /index.html HTTP/1.1\r\nHost: example.org\r\nAccept: */*\r\n\r\n",
@@ -1340,7 +1342,37 @@ impl<'a, 'b> Gen<'a, 'b> {
 
     fn compound_stmt(&mut self, d: usize) -> Option<Stmt> {
         self.stat("compound_assign");
-        let (target, op, value) = match self.t.weighted(&[4, 3, 3, 2]) {
+        let (target, op, value) = match self.t.weighted(&[4, 3, 3, 2, 2]) {
+            4 => {
+                // the key reads a field / applies an operator on an object whose metamethods are
+                // observable: no call in sight, but the key must still be evaluated exactly once
+                let v = self.pick_var(|v| v.kind == Kind::Obj)?;
+                self.stat("compound_key_with_observable_read");
+                self.counter += 1;
+                let h = format!("h{}", self.counter);
+                let o = nm(&v.name);
+                let (key, slot) = match self.t.choose(6) {
+                    0 => (field(o, "kind"), 7.0),
+                    1 => (index(o, num(1.0)), 7.0),
+                    2 => (paren(field(o, "kind")), 7.0),
+                    3 => (Expr::Unary(UnOp::Neg, Box::new(o)), 17.0),
+                    4 => (bin(BinOp::Add, o, num(1.0)), 11.0),
+                    _ => (bin(BinOp::Concat, o, s("x")), -1.0),
+                };
+                let init = if slot < 0.0 {
+                    Expr::Table(vec![TableItem::Named("cat".into(), num(1.0))])
+                } else {
+                    Expr::Table(vec![TableItem::Keyed(num(slot), num(1.0))])
+                };
+                let read = if slot < 0.0 { field(nm(&h), "cat") } else { index(nm(&h), num(slot)) };
+                let op = [BinOp::Add, BinOp::Sub, BinOp::Mul][self.t.choose(3)];
+                let value = self.e_num(d);
+                return Some(Stmt::Do(Block::new(vec![
+                    Stmt::Local { is_const: false, names: vec![Binding::new(h.clone())], values: vec![init] },
+                    Stmt::CompoundAssign { target: index(nm(&h), key), op, value },
+                    Stmt::Call(callg("emit", vec![read])),
+                ])));
+            }
             0 => {
                 let v = self.pick_var(|v| v.assignable && v.kind == Kind::Num)?;
                 let op = [BinOp::Add, BinOp::Sub, BinOp::Mul, BinOp::Div, BinOp::IDiv, BinOp::Mod, BinOp::Pow][self.t.choose(7)];
